@@ -185,6 +185,10 @@ var KeyFamilies = [][]string{
 	{"b", "b ", " b"},
 	{"1.0", "1", "1e0"},
 	{"x-1", "x_1", "x1"},
+	// long names that differ in their tails only (what real configuration
+	// keys look like), of almost the same length
+	{"deploymentStrategyDefaults", "deploymentStrategyOverride", "deploymentStrategySettings", "deploymentStrategyFallback"},
+	{"service_account_name", "service_account_role", "service_account_uuid", "service_accounts_max"},
 }
 
 // Bulk adds large members to a root map.
